@@ -259,6 +259,8 @@ func (ti *typeInfo) compare(ref *encref.Node, results []result, skip func(vi int
 				d := "wrong-value:" + nodeClass(mem.Val)
 				if tc := treeClass(v); tc != nodeClass(mem.Val) {
 					d += "/" + tc
+				} else if mem.Val.Kind == 'a' || mem.Val.Kind == 'o' {
+					d += "~" + encref.WhyNot(mem.Val, v) // what is wrong inside: two defects must not explain each other
 				}
 				f := mem.Field
 				if f < 0 || f >= nf {
@@ -309,6 +311,8 @@ func (ti *typeInfo) compare(ref *encref.Node, results []result, skip func(vi int
 						dv := "wrong-value:" + nodeClass(mem.Val)
 						if tc := treeClass(m[strays[si].key]); tc != nodeClass(mem.Val) {
 							dv += "/" + tc
+						} else if mem.Val.Kind == 'a' || mem.Val.Kind == 'o' {
+							dv += "~" + encref.WhyNot(mem.Val, m[strays[si].key])
 						}
 						cf.add(fkey{f, dv}, vi, mem, "", 0)
 					}
